@@ -23,7 +23,13 @@ import (
 	"verif/sim/rt"
 )
 
-const verifDir = "/verif"
+// verifDir is the root of the verification tree (the directory of ./check).
+var verifDir = func() string {
+	if v := os.Getenv("VERIF_DIR"); v != "" {
+		return v
+	}
+	return "/verif"
+}()
 
 // outDir is where evidence and replay files go (VERIF_OUT overrides it for
 // sensitivity experiments so that they do not overwrite committed evidence).
